@@ -28,12 +28,14 @@ import (
 const schedPath = load.Module + "/scheduler"
 
 type arm struct {
-	idx   int
-	kind  string // "dispatch", "enqueue", "result", "other"
-	name  string
-	state *ssa.SelectState
-	entry *ssa.BasicBlock
-	recv  ssa.Value // received value (Extract), nil for sends or unused
+	idx    int
+	kind   string // "dispatch", "enqueue", "result", "other"
+	name   string
+	state  *ssa.SelectState
+	entry  *ssa.BasicBlock // first block executed when this state was chosen
+	test   *ssa.BasicBlock // block ending in `if index == k`
+	recv   ssa.Value       // received value (Extract), nil for sends or unused
+	member map[*ssa.BasicBlock]bool
 }
 
 type model struct {
@@ -71,6 +73,7 @@ type model struct {
 	cWaiting   *ssa.Phi
 	enqPhi     ssa.Value // loop-carried local enqueue channel (phi) or the direct load
 	emitCall   ssa.CallInstruction
+	stateVal   ssa.Value // the State value whose fields identify the counters (nil: identified structurally)
 
 	// worker model
 	wRecv    *ssa.UnOp // <-readyc, ok
@@ -335,30 +338,11 @@ func discover(repo *load.Repo) (*model, error) {
 	if m.fnLoop == nil || m.fnWorker == nil || m.fnLoop.Blocks == nil || m.fnWorker.Blocks == nil {
 		return nil, fmt.Errorf("Config.New does not start (with `go`) a *Scheduler method (loop) and a worker function")
 	}
-	// Scheduler fields fed from Config.Concurrency / Config.ContinueOnError in New.
-	for _, fn := range ssax.WithAnon(m.fnNew) {
-		ssax.Instrs(fn, func(in ssa.Instruction) {
-			st, ok := in.(*ssa.Store)
-			if !ok {
-				return
-			}
-			base, f, ok := ssax.FieldAddrOf(st.Addr)
-			if !ok || !fieldOfStruct(m.Sched, f) {
-				return
-			}
-			_ = base
-			if _, cfgF, ok := ssax.FieldLoad(ssax.Unspill(st.Val)); ok {
-				if cfgF == m.cfgConc {
-					m.fConc = f
-				}
-				if cfgF == m.cfgCOE {
-					m.fCOE = f
-				}
-			}
-		})
-	}
+	// Scheduler fields holding the limit and the error mode: by type (S29 checks how they are fed).
+	m.fConc = pick(fields(ss, func(v *types.Var) bool { return types.Identical(v.Type(), types.Typ[types.Int]) }), "concurrency")
+	m.fCOE = pick(fields(ss, func(v *types.Var) bool { return types.Identical(v.Type(), types.Typ[types.Bool]) }), "continueOnError")
 	if m.fConc == nil || m.fCOE == nil {
-		return nil, fmt.Errorf("Config.New does not build a Scheduler forwarding Config.Concurrency and Config.ContinueOnError into fields")
+		return nil, fmt.Errorf("Scheduler fields for the concurrency limit (int) and the error mode (bool) not identified")
 	}
 	// ScheduledJob field roles.
 	m.sjCtx = pick(fields(sj, func(v *types.Var) bool { return isContext(v.Type()) }), "ctx")
